@@ -1,5 +1,5 @@
 """fail-closed python-ast -> Gallina translators; ALL maps Gen file name -> function returning Coq text."""
-from vlib.translators import layout, fromi, varterms, checks, masks
+from vlib.translators import layout, fromi, varterms, checks, masks, order
 
 ALL = {"GenLayout": layout.translate, "GenFromI": fromi.translate, "GenVarTermsQ": varterms.translate_Q, "GenVarTermsR": varterms.translate_R,
-       "GenChecks": checks.translate, "GenMasks": masks.translate}
+       "GenChecks": checks.translate, "GenMasks": masks.translate, "GenOrder": order.translate}
